@@ -5,6 +5,7 @@
 // ledger of accepted sends (reference model).
 #include "vf.h"
 #include "xpair.h"
+#include <sys/socket.h>
 
 #include <algorithm>
 #include <pthread.h>
@@ -53,6 +54,8 @@ struct Side {
     // btls known finding: remember a refused send
     bool refused = false;
     uint32_t refused_tag = 0, refused_len = 0;
+    bool refused_unretried = false; // ever: a btls send was refused and not retried with the identical buffer at once
+    const char *kfq() const { return refused_unretried ? " [this sender had a btls send refused with EAGAIN that was not retried identically]" : ""; }
     bool last_recv_truncated = false;
     bool failed = false; // a non-EAGAIN error was seen (after peer close)
 };
@@ -260,7 +263,23 @@ struct Run {
         // make the blocked call return: close the peer
         if (force) for (int k = 0; k < 2; k++) if (!s[k].ep.blocking && !s[k].ep.closed) x_close(s[k].ep);
         double t0 = now_s();
-        while (!g_worker.poll_done(rc, err) && now_s() - t0 < 20) usleep(1000);
+        while (!g_worker.poll_done(rc, err) && now_s() - t0 < (force ? 20 : 3)) usleep(1000);
+        if (g_worker.poll_done(rc, err)) return;
+        // the verdict is in already; the call must come back before its socket and buffer can be released
+        for (int k = 0; k < 2; k++) if (!s[k].ep.blocking && !s[k].ep.closed) x_close(s[k].ep);
+        t0 = now_s();
+        while (!g_worker.poll_done(rc, err) && now_s() - t0 < 10) usleep(1000);
+        if (g_worker.poll_done(rc, err)) return;
+        for (int k = 0; k < 2; k++)
+            if (s[k].ep.blocking && !s[k].ep.closed) { int fd = sh_data_fd(s[k].ep.tag); if (fd >= 0) shutdown(fd, SHUT_RDWR); }
+        t0 = now_s();
+        while (!g_worker.poll_done(rc, err) && now_s() - t0 < 10) usleep(1000);
+        if (g_worker.poll_done(rc, err)) return;
+        // the thread is inside the library for good and owns the socket and the buffer: this process
+        // cannot go on.  The plan in <prefix>.current is the failing input.
+        printf("FAILED: C04: a blocking XCM call did not return within 40 s of its peer closing and its own connection being shut down\n");
+        fflush(stdout);
+        _exit(3);
     }
 
     bool errno_ok_after_peer_gone(int e) { return e != EAGAIN && e != 0; }
@@ -385,6 +404,7 @@ struct Run {
             if (e == EAGAIN) {
                 refused_sends++;
                 if (!bs && x_cnt(sd.ep, CNT_NAMES[FROM_APP_M]) > x_cnt(sd.ep, CNT_NAMES[TO_LOWER_M])) refused_pending++;
+                if (tp == BTLS) sd.refused_unretried = true;
                 if (tp == BTLS) { if (!sd.refused || tag != sd.refused_tag) { sd.refused_tag = tag; sd.refused_len = len; } else sd.refused_len = std::max(sd.refused_len, len); sd.refused = true; }
             } else if (e == EINTR && sd.ep.blocking) {
                 // interrupted blocking wait: no trace (checked above / at the end)
@@ -394,8 +414,8 @@ struct Run {
                          "C03: send(len=%u) failed with %s", len, errname(e));
             } else {
                 VF_CHECK(peer.ep.closed && errno_ok_after_peer_gone(e),
-                         "C01: %s: xcm_send failed with %s while the peer is alive and nothing was injected",
-                         sd.name, errname(e));
+                         "C01: %s: xcm_send failed with %s while the peer is alive and nothing was injected%s",
+                         sd.name, errname(e), sd.kfq());
                 sd.failed = true;
                 out.slack_msgs++;
                 out.slack_bytes += len;
@@ -477,8 +497,8 @@ struct Run {
                 } else {
                     size_t total = in.bytes.size() + in.pending.size();
                     if (in.off + rc > total) {
-                        o = failf("C02: %s received %d bytes but only %zu accepted bytes are outstanding",
-                                  sd.name, rc, total - in.off);
+                        o = failf("C02: %s received %d bytes but only %zu accepted bytes are outstanding%s",
+                                  sd.name, rc, total - in.off, s[1 - i].kfq());
                         break;
                     }
                     int bad = -1;
@@ -488,8 +508,8 @@ struct Run {
                         if (buf[k] != want) bad = k;
                     }
                     if (bad >= 0) {
-                        o = failf("C02: %s: stream differs at offset %zu (received stream is not a prefix of the accepted bytes)",
-                                  sd.name, in.off + bad);
+                        o = failf("C02: %s: stream differs at offset %zu (received stream is not a prefix of the accepted bytes)%s",
+                                  sd.name, in.off + bad, s[1 - i].kfq());
                         break;
                     }
                     in.off += rc;
